@@ -253,6 +253,29 @@ fn run_history(sim: &mut Sim, cfg: &Config, steps: &[(Op, usize)], acc: &mut Acc
             ok = false;
             break;
         }
+        // what was observed (evidence counters)
+        acc.count("frames_observed", 1);
+        if key_post != key_now {
+            acc.count("chain_reactions_observed (key changed by the chain)", 1);
+        }
+        if next.iter().any(|n| n.acted != cands[0].acted) {
+            acc.count("frames_with_a_selection", 1);
+        }
+        if next.len() > 1 {
+            acc.count("frames_with_more_than_one_surviving_explanation", 1);
+        }
+        if cands.iter().any(|c| c.pending_gov.is_some()) {
+            acc.count("frames_with_a_pending_own_Ended_event", 1);
+            if matches!(op, Op::Assign(_)) {
+                acc.count("race_frames (explicit assignment between end and chain reaction)", 1);
+            }
+        }
+        if other_ended_prev {
+            acc.count("frames_after_the_other_animator_ended", 1);
+        }
+        for ev in &mine {
+            acc.count(&format!("events_{}", state_name(*ev)), 1);
+        }
         // coverage
         for n in &next {
             let kind = if n.acted != cands[0].acted || cands.iter().all(|c| c.acted != n.acted) { "selection" } else { "steady" };
